@@ -318,18 +318,24 @@ func c15HexaForms(p *core.Program, r *core.Report) {
 						continue
 					}
 					bad := ""
-					if neg && !ivIntersect(pth.Set, ivSet{{0, math.MaxInt64}}).empty() {
-						bad = "the magnitude -num is taken of a class that holds non-negative values"
+					// which sign the digit writer wants its argument in: the one that negates its parameter
+					// before it takes digits wants the magnitude itself (>= 0); the one that takes the digits
+					// of the negated remainder of its parameter as it stands wants the magnitude negated (<= 0,
+					// so that the most negative number fits)
+					wantsNegated := digitWriterWantsNegated(p, calleeFunc(einfo, call))
+					classNeg := neg != wantsNegated // the sign of the values this form is written for
+					if classNeg && !ivIntersect(pth.Set, ivSet{{0, math.MaxInt64}}).empty() {
+						bad = "the magnitude form for negative values (`" + types.ExprString(call.Args[0]) + "`) is used for a class that holds non-negative values"
 					}
-					if !neg && !ivIntersect(pth.Set, ivSet{{math.MinInt64, -1}}).empty() {
-						bad = "the magnitude num is taken of a class that holds negative values"
+					if !classNeg && !ivIntersect(pth.Set, ivSet{{math.MinInt64, -1}}).empty() {
+						bad = "the magnitude form for non-negative values (`" + types.ExprString(call.Args[0]) + "`) is used for a class that holds negative values"
 					}
 					if neg && pth.Set.contains(math.MinInt64) {
 						bad = "-num overflows for the most negative value, which is in this class"
 					}
 					ks, shown := kindsFor(int64(prefix[0]))
 					want := dPos
-					if neg {
+					if classNeg {
 						want = dNeg
 					}
 					if bad == "" {
@@ -338,7 +344,7 @@ func c15HexaForms(p *core.Program, r *core.Report) {
 							r.Undec("C15.hexa", c, pos, "decoder branch for prefix "+strconv.Quote(prefix)+" returns `"+shown+"`, not understood")
 							continue
 						case !ks[want] || ks[dDec] || (want == dPos && ks[dNeg]) || (want == dNeg && ks[dPos]):
-							bad = fmt.Sprintf("prefix %q is written for %s values, but the decoder's branch for it does not return the %s magnitude of the rest", prefix, map[bool]string{true: "negative", false: "non-negative"}[neg], map[bool]string{true: "negated", false: "plain"}[neg])
+							bad = fmt.Sprintf("prefix %q is written for %s values, but the decoder's branch for it does not return the %s magnitude of the rest", prefix, map[bool]string{true: "negative", false: "non-negative"}[classNeg], map[bool]string{true: "negated", false: "plain"}[classNeg])
 						}
 					}
 					r.Check(bad == "", "C15.hexa", c, pos, fmt.Sprintf("prefix %q + base-32 magnitude, read back by the matching branch", prefix), bad)
@@ -452,4 +458,52 @@ func expandLocalsPath(info *types.Info, pth *cePath, e ast.Expr) ast.Expr {
 		e = def
 	}
 	return e
+}
+
+
+// digitWriterWantsNegated: the digit writer takes digits as -(x % radix) of its parameter x as it
+// stands (x <= 0 expected) rather than negating x first (x >= 0 expected).
+func digitWriterWantsNegated(p *core.Program, fn *types.Func) bool {
+	cf := p.FuncOf(fn)
+	if cf == nil || cf.Decl.Body == nil || cf.Decl.Type.Params.NumFields() == 0 {
+		return false
+	}
+	info := cf.Pkg.TypesInfo
+	var param types.Object
+	for _, f := range cf.Decl.Type.Params.List {
+		for _, n := range f.Names {
+			if param == nil {
+				param = info.Defs[n]
+			}
+		}
+	}
+	if param == nil {
+		return false
+	}
+	isParam := func(e ast.Expr) bool {
+		id, ok := ast.Unparen(e).(*ast.Ident)
+		return ok && info.ObjectOf(id) == param
+	}
+	negatesFirst, minusOfParam := false, false
+	ast.Inspect(cf.Decl.Body, func(n ast.Node) bool {
+		switch v := n.(type) {
+		case *ast.AssignStmt:
+			if len(v.Lhs) == 1 && len(v.Rhs) == 1 && isParam(v.Lhs[0]) {
+				if u, ok := ast.Unparen(v.Rhs[0]).(*ast.UnaryExpr); ok && u.Op == token.SUB && isParam(u.X) {
+					negatesFirst = true
+				}
+			}
+		case *ast.UnaryExpr:
+			if v.Op == token.SUB {
+				ast.Inspect(v.X, func(m ast.Node) bool {
+					if id, ok := m.(*ast.Ident); ok && info.ObjectOf(id) == param {
+						minusOfParam = true
+					}
+					return true
+				})
+			}
+		}
+		return true
+	})
+	return !negatesFirst && minusOfParam
 }
